@@ -58,6 +58,7 @@ type pcAtom struct {
 	v      ssa.Value
 	xk, yk string
 	ctx    *symCtx // call string the values stand in (for Resolve / Origins)
+	iter   bool    // "there is a further element": stands for the scan of slices.ContainsFunc
 }
 
 var (
@@ -1969,11 +1970,145 @@ type searchExit struct {
 	inLoop bool // taken in the middle of an iteration
 	cond   *pcF // inLoop: from the innermost loop's header; else from the function entry
 	ret    *ssa.Return
+	list   ssa.Value // inLoop: the list scanned, when it is indexed by the loop's range counter (or handed to slices.ContainsFunc)
+}
+
+// pcIsIter: the atom says "the scan has a further element".
+func pcIsIter(a *pcAtom) bool {
+	return a.iter || (a.op == token.LSS && a.x != nil && isRangeIndex(a.x))
+}
+
+// pcAssign: f with the atom of that key fixed.
+func pcAssign(f *pcF, key string, val bool, memo map[*pcF]*pcF) *pcF {
+	if g, ok := memo[f]; ok {
+		return g
+	}
+	var g *pcF
+	switch f.k {
+	case pcAtomK:
+		g = f
+		if f.atom.key == key {
+			g = pcZ
+			if val {
+				g = pcT
+			}
+		}
+	case pcNot:
+		g = pcNotF(pcAssign(f.a, key, val, memo))
+	case pcAnd:
+		g = pcAndF(pcAssign(f.a, key, val, memo), pcAssign(f.b, key, val, memo))
+	case pcOr:
+		g = pcOrF(pcAssign(f.a, key, val, memo), pcAssign(f.b, key, val, memo))
+	default:
+		g = f
+	}
+	memo[f] = g
+	return g
+}
+
+// containsFuncCall: c is slices.ContainsFunc(list, test); the test's function.
+func containsFuncCall(c *ssa.Call) (list ssa.Value, test *ssa.Function) {
+	g := c.Call.StaticCallee()
+	if g == nil || len(c.Call.Args) != 2 {
+		return nil, nil
+	}
+	if o := g.Origin(); o != nil {
+		g = o
+	}
+	if g.String() != "slices.ContainsFunc" {
+		return nil, nil
+	}
+	switch x := c.Call.Args[1].(type) {
+	case *ssa.MakeClosure:
+		test, _ = x.Fn.(*ssa.Function)
+	case *ssa.Function:
+		test = x
+	case *ssa.ChangeType:
+		if mc, ok := x.X.(*ssa.MakeClosure); ok {
+			test, _ = mc.Fn.(*ssa.Function)
+		} else if fn, ok := x.X.(*ssa.Function); ok {
+			test = fn
+		}
+	}
+	if test == nil || test.Blocks == nil || len(ssaLoops(test)) > 0 {
+		return nil, nil
+	}
+	return c.Call.Args[0], test
+}
+
+// outerValue: inside a function literal, the read of a captured variable that
+// the enclosing function only ever sets to one value (a parameter, a value
+// computed once) stands for that value.
+func outerValue(v ssa.Value) ssa.Value {
+	ld, ok := v.(*ssa.UnOp)
+	if !ok || ld.Op != token.MUL {
+		return v
+	}
+	fv, ok := ld.X.(*ssa.FreeVar)
+	if !ok {
+		return v
+	}
+	fn := fv.Parent()
+	idx := -1
+	for i, x := range fn.FreeVars {
+		if x == fv {
+			idx = i
+		}
+	}
+	if idx < 0 || fn.Parent() == nil {
+		return v
+	}
+	var cell ssa.Value
+	for _, b := range fn.Parent().Blocks {
+		for _, in := range b.Instrs {
+			if mc, ok := in.(*ssa.MakeClosure); ok && mc.Fn == ssa.Value(fn) && idx < len(mc.Bindings) {
+				if cell != nil && cell != mc.Bindings[idx] {
+					return v
+				}
+				cell = mc.Bindings[idx]
+			}
+		}
+	}
+	a, ok := cell.(*ssa.Alloc)
+	if !ok {
+		return v
+	}
+	var stored ssa.Value
+	for _, ref := range *a.Referrers() {
+		switch x := ref.(type) {
+		case *ssa.Store:
+			if x.Addr != ssa.Value(a) || stored != nil {
+				return v
+			}
+			stored = x.Val
+		case *ssa.UnOp, *ssa.MakeClosure, *ssa.DebugRef:
+		default:
+			return v
+		}
+	}
+	if stored == nil {
+		return v
+	}
+	return stored
 }
 
 func searchExits(sym *Sym, f *ssa.Function) []searchExit {
 	var out []searchExit
 	loops := ssaLoops(f)
+	listOf := func(l *ssaLoop) ssa.Value {
+		var list ssa.Value
+		for b := range l.body() {
+			for _, in := range b.Instrs {
+				if ia, ok := in.(*ssa.IndexAddr); ok && isRangeIndex(ia.Index) {
+					if list != nil && list != ia.X {
+						return nil
+					}
+					list = ia.X
+				}
+			}
+		}
+		return list
+	}
 	for _, b := range f.Blocks {
 		ret, ok := b.Instrs[len(b.Instrs)-1].(*ssa.Return)
 		if !ok || b == f.Recover {
@@ -1992,9 +2127,50 @@ func searchExits(sym *Sym, f *ssa.Function) []searchExit {
 			}
 		}
 		if best != nil {
-			out = append(out, searchExit{b, true, sym.PathCond(best.Header, b, nil), ret})
-		} else {
-			out = append(out, searchExit{b, false, sym.PathCond(f.Blocks[0], b, nil), ret})
+			out = append(out, searchExit{b, true, sym.PathCond(best.Header, b, nil), ret, listOf(best)})
+			continue
+		}
+		// the scan written as slices.ContainsFunc(list, test): an exit taken when it says yes is
+		// an exit in the middle of the scan, under the test's own condition on the element
+		split := false
+		for _, cb := range f.Blocks {
+			if split || !(cb == b || cb.Dominates(b)) {
+				continue
+			}
+			for _, in := range cb.Instrs {
+				c, isC := in.(*ssa.Call)
+				if !isC {
+					continue
+				}
+				list, test := containsFuncCall(c)
+				if test == nil {
+					continue
+				}
+				after := sym.PathCond(cb, b, nil)
+				key := sym.Key(c, nil)
+				has := false
+				for _, a := range after.atoms() {
+					if a.key == key {
+						has = true
+					}
+				}
+				if !has {
+					continue
+				}
+				split = true
+				yes, no := pcAssign(after, key, true, map[*pcF]*pcF{}), pcAssign(after, key, false, map[*pcF]*pcF{})
+				if pcSat(yes) {
+					iter := &pcF{k: pcAtomK, atom: &pcAtom{key: "∃" + key, iter: true, v: c}}
+					out = append(out, searchExit{b, true, pcAndF(pcAndF(iter, sym.ResultCond(test, nil)), yes), ret, list})
+				}
+				if pcSat(no) {
+					out = append(out, searchExit{b, false, pcAndF(sym.PathCond(f.Blocks[0], cb, nil), no), ret, nil})
+				}
+				break
+			}
+		}
+		if !split {
+			out = append(out, searchExit{b, false, sym.PathCond(f.Blocks[0], b, nil), ret, nil})
 		}
 	}
 	return out
